@@ -667,6 +667,13 @@ def replay_file(path):
             print("VIOLATION property=%s replay=%s" % (prop, path))
             return EXIT_VIOLATION
         return EXIT_OK
+    if rec.get("kind") == "ch":
+        from . import ch
+        ok = ch.replay(rec)
+        if not ok:
+            print("VIOLATION property=%s replay=%s" % (prop, path))
+            return EXIT_VIOLATION
+        return EXIT_OK
     fn = getattr(mod, "replay", None)
     if fn is None:
         print("no replay function for kind %s" % rec.get("kind"))
